@@ -636,8 +636,15 @@ impl<W: Word, B: AsRef<[W]> + AsMut<[W]>> BitFieldSliceMut<W> for BitFieldVec<W,
             let residual =
                 bit_len - (W::BITS - dst_bit) - (dst_last_word - dst_first_word - 1) * W::BITS;
             let mask = W::MAX >> (W::BITS - residual);
+            // The last destination word gets the bits left over from the
+            // previous source word and, if the source extends that far,
+            // the low bits of the next one, shifted like all the others
+            let last = src_first_word + (dst_last_word - dst_first_word);
+            if last <= src_last_word {
+                word |= source[last] << shift;
+            }
             dest[dst_last_word] &= !mask;
-            dest[dst_last_word] |= source[src_last_word] & mask;
+            dest[dst_last_word] |= word & mask;
         } else {
             // src_first_word != src_last_word && dst_first_word !=
             // dst_last_word && src_bit > dst_bit
